@@ -111,6 +111,11 @@ func (eng) Cases(seed uint64, tier string) []core.CaseDesc {
 			}
 		}
 	}
+	// pipes into Err-prefixed target states (forwarded together with Exception),
+	// the target being in Exception already or not
+	for k := 0; k < 8; k++ {
+		cs = append(cs, mk(fmt.Sprintf("errpipe/%02d", k), "errpipe", uint64(k), pipeP{}))
+	}
 	for _, b := range []string{"bind", "flat"} {
 		for r := 0; r < netReps; r++ {
 			i++
@@ -485,8 +490,73 @@ func (e eng) Run(c core.CaseDesc, tier string) *core.CaseResult {
 		runPipe(res, c, p)
 	case "stall":
 		runStall(res, c, p)
+	case "errpipe":
+		runErrPipe(res, c)
 	}
 	return res
+}
+
+// runErrPipe: a (flat or plain) pipe from the source's ErrNet into the
+// target's ErrNet, which pipes forward together with Exception. The target
+// may be in Exception already (another error is up) when the source's error
+// activates; it has to follow the source anyway.
+func runErrPipe(res *core.CaseResult, c core.CaseDesc) {
+	flat := c.Seed%2 == 0
+	preErr := (c.Seed/2)%2 == 1 // target already in Exception through ErrDisk
+	twice := c.Seed/4 == 1       // the source's error comes and goes twice
+	src := am.New(context.Background(), am.Schema{"ErrNet": {Require: am.S{am.StateException}}, "Idle": {}},
+		&am.Opts{Id: "c18es", DontLogId: true, DontLogStackTrace: true})
+	tgt := am.New(context.Background(), am.Schema{"ErrNet": {Require: am.S{am.StateException}}, "ErrDisk": {Require: am.S{am.StateException}}},
+		&am.Opts{Id: "c18et", DontLogId: true, DontLogStackTrace: true})
+	defer src.Dispose()
+	defer tgt.Dispose()
+	var addH, remH am.HandlerFinal
+	if flat {
+		addH, remH = ampipe.AddFlat(src, tgt, "ErrNet", ""), ampipe.RemoveFlat(src, tgt, "ErrNet", "")
+	} else {
+		addH, remH = ampipe.Add(src, tgt, "ErrNet", ""), ampipe.Remove(src, tgt, "ErrNet", "")
+	}
+	if _, err := src.HandlersBindMaps(nil, map[string]am.HandlerFinal{"ErrNetState": addH, "ErrNetEnd": remH}); err != nil {
+		res.Inconclusive = "bind: " + err.Error()
+		return
+	}
+	if preErr {
+		tgt.Add(am.S{am.StateException, "ErrDisk"}, nil)
+	}
+	settle := func(want bool) bool {
+		for i := 0; i < 3000; i++ {
+			if tgt.Is1("ErrNet") == want && tgt.QueueLen() == 0 && tgt.Transition() == nil {
+				return true
+			}
+			time.Sleep(time.Millisecond)
+		}
+		return false
+	}
+	rounds := 1
+	if twice {
+		rounds = 2
+	}
+	ctx := map[string]any{"flat": flat, "target_in_exception_before": preErr, "rounds": rounds}
+	for k := 0; k < rounds; k++ {
+		src.Add(am.S{am.StateException, "ErrNet"}, nil)
+		res.Evals++
+		if !src.Is1("ErrNet") {
+			res.Inconclusive = "the source did not activate ErrNet"
+			return
+		}
+		if !settle(true) {
+			res.Violate("C18/errpipe/forward-missing/add", fmt.Sprintf("the source's ErrNet is active, the target's ErrNet stayed inactive (target %s)", tgt.String()), ctx)
+			return
+		}
+		src.Remove1("ErrNet", nil)
+		res.Evals++
+		if !settle(false) {
+			res.Violate("C18/errpipe/forward-missing/remove", fmt.Sprintf("the source's ErrNet was deactivated, the target's ErrNet stayed active (target %s)", tgt.String()), ctx)
+			return
+		}
+		src.Remove1(am.StateException, nil)
+	}
+	res.Key("errpipe", flat, preErr, twice)
 }
 
 type opRec struct {
